@@ -185,3 +185,14 @@ def check_c13(io, time_budget=120):
         pk = M.x25519_base(sk)
         return (d["pk"] == pk.hex() and d["sk"] == sk.hex(), (pk + sk).hex())
     return _run(io, {"box_seed": box_seed, "kx_seed": kx_seed, "sign_seed": sign_seed, "ed_to_curve": ed2x, "pw_keypair": pwkp}, time_budget, "C13")
+
+
+def check_c09(io, time_budget=120):
+    def h(d):
+        if d["m"] > 64 or d["t"] > 3:
+            return None
+        want = M.argon2(_b(d["pw"]), _b(d["salt"]), d["t"], d["m"], d["outlen"], 2 if d["id"] else 1)
+        return (d["out"] == want.hex(), want.hex())
+    # cheapest first so that the time budget truncates the expensive tail, not the variety
+    io = sorted([r for r in io if r["op"] == "argon2"], key=lambda r: r["d"]["m"] * r["d"]["t"])
+    return _run(io, {"argon2": h}, time_budget, "C09")
